@@ -4,8 +4,10 @@ pub mod c01;
 pub mod c05;
 pub mod c06;
 pub mod c07;
+pub mod c08;
 pub mod c09;
 pub mod c10;
+pub mod c15;
 pub mod c16;
 pub mod c18;
 pub mod c18_sessions;
@@ -17,8 +19,10 @@ pub fn run(ctx: &Ctx) -> bool {
         "C05" => c05::run(ctx),
         "C06" => c06::run(ctx),
         "C07" => c07::run(ctx),
+        "C08" => c08::run(ctx),
         "C09" => c09::run(ctx),
         "C10" => c10::run(ctx),
+        "C15" => c15::run(ctx),
         "C16" => c16::run(ctx),
         "C18" => c18::run(ctx),
         _ => return false,
